@@ -68,7 +68,7 @@ func (S) Info() scen.Info {
 			"reference model":      "write-once map (direct interval rule + porcupine v1.3.0 nondeterministic model, partitioned by key)",
 		},
 		QuickUnits: 60000, ThoroughUnits: 3000000, QuickSecs: 240, ThoroughSecs: 1200,
-		ProbeKeys: []string{"probe.fallback_putstream", "probe.fallback_getstream", "probe.fallback_peek", "probe.fallback_putvec", "probe.buffer_scribbled", "probe.key_with_nul", "probe.key_with_slash", "probe.key_dotdot", "probe.key_empty", "probe.concurrent_put_read", "probe.failed_put", "probe.porcupine_checked", "probe.empty_content"},
+		ProbeKeys: []string{"probe.fallback_putstream", "probe.fallback_getstream", "probe.fallback_peek", "probe.fallback_putvec", "probe.buffer_scribbled", "probe.key_with_nul", "probe.key_with_slash", "probe.key_dotdot", "probe.key_empty", "probe.concurrent_put_read", "probe.failed_put", "probe.porcupine_checked", "probe.empty_content", "probe.via_linksystem_openers"},
 		EventsKey: "events",
 	}
 }
@@ -96,6 +96,19 @@ type basicOnly struct{ s rw }
 func (b basicOnly) Has(ctx context.Context, k string) (bool, error)   { return b.s.Has(ctx, k) }
 func (b basicOnly) Get(ctx context.Context, k string) ([]byte, error) { return b.s.Get(ctx, k) }
 func (b basicOnly) Put(ctx context.Context, k string, c []byte) error { return b.s.Put(ctx, k, c) }
+
+// vecNative is a store that offers PutVec itself (no bundled store does): the basic store plus a
+// PutVec that joins the pieces. It exists so that the storage.PutVec helper's delegation to a
+// store's own PutVec is exercised; the joining stub is part of the harness.
+type vecNative struct{ basicOnly }
+
+func (v vecNative) PutVec(ctx context.Context, k string, pieces [][]byte) error {
+	var all []byte
+	for _, p := range pieces {
+		all = append(all, p...)
+	}
+	return v.s.Put(ctx, k, all)
+}
 
 type keptGet struct {
 	b   []byte
@@ -129,6 +142,8 @@ type world struct {
 	lnks []datamodel.Link
 
 	haveEmpty bool // one key of this history holds the empty block
+	openW     linking.BlockWriteOpener
+	openR     linking.BlockReadOpener
 
 	backend int
 	bname   string
@@ -181,6 +196,7 @@ func (S) RunTape(t *sim.Tape, st *sim.Stats, keepLog bool) *sim.Outcome {
 	case 1:
 		w.bname = "cidlink.Memory"
 		w.mem = &cidlink.Memory{}
+		w.openW, w.openR = w.mem.OpenWrite, w.mem.OpenRead
 	case 2, 3:
 		root = filepath.Join(shmRoot(), fmt.Sprintf("k%d", atomic.AddInt64(&runCounter, 1)))
 		base := filepath.Join(root, "store")
@@ -213,13 +229,25 @@ func (S) RunTape(t *sim.Tape, st *sim.Stats, keepLog bool) *sim.Outcome {
 		w.store = fs
 		faulty = t.Pct(25, "cfg.faulty")
 		w.d.SplitWrites = t.Bool("cfg.split")
+		w.d.NoReplaceRename = t.Pct(15, "cfg.rename_noreplace")
 	}
 	if hide && w.store != nil {
-		w.store = basicOnly{w.store}
-		w.bname += "+basicOnly"
+		if t.Pct(25, "cfg.vecnative") {
+			w.store = vecNative{basicOnly{w.store}}
+			w.bname += "+basicOnly+ownPutVec"
+		} else {
+			w.store = basicOnly{w.store}
+			w.bname += "+basicOnly"
+		}
 	}
 	if w.helper {
 		w.bname += "+helpers"
+	}
+	if w.store != nil {
+		var ls linking.LinkSystem
+		ls.SetReadStorage(w.store)
+		ls.SetWriteStorage(w.store)
+		w.openW, w.openR = ls.StorageWriteOpener, ls.StorageReadOpener
 	}
 
 	// ---- keys and contents ----
@@ -501,6 +529,13 @@ func (w *world) do(client, kind, k int, pieces []int, end, chunk int, scribble b
 		w.doMem(&h, kind, k, pieces, end, chunk, scribble)
 		return
 	}
+	if w.lnks[k] != nil && kind != 6 && w.keys[k] == w.lnks[k].Binary() && w.t.Pct(20, "op.via_linksystem_openers") {
+		// the way a LinkSystem reaches a store: the openers that SetReadStorage / SetWriteStorage install
+		h.how += "(via LinkSystem openers)"
+		w.st.Inc("probe.via_linksystem_openers")
+		w.doMem(&h, kind, k, pieces, end, chunk, scribble)
+		return
+	}
 	store := w.store
 	switch kind {
 	case 0:
@@ -733,45 +768,60 @@ func (w *world) doMem(h *hop, kind, k int, pieces []int, end, chunk int, scribbl
 	switch kind {
 	case 0, 1, 2:
 		h.kind = "put"
-		wr, commit, err := w.mem.OpenWrite(linking.LinkContext{Ctx: ctx})
+		wr, commit, err := w.openW(linking.LinkContext{Ctx: ctx})
 		if err != nil {
 			h.failed = true
 			break
 		}
 		prev := 0
+		werr := false
 		for _, sp := range append(append([]int(nil), pieces...), len(content)) {
 			if len(content) == 0 && scribble {
 				break
 			}
 			buf := append([]byte(nil), content[prev:sp]...)
-			wr.Write(buf)
+			if _, err := wr.Write(buf); err != nil {
+				werr = true
+				break
+			}
 			if scribble {
 				scrib(buf)
 			}
 			prev = sp
 			w.s.Yield("stream.piece")
 		}
-		if kind == 1 && end != 0 {
+		if werr || (kind == 1 && end != 0) {
+			// a writer that failed is not committed (what LinkSystem.Store does); an abandoned one neither
 			h.kind = "abort"
 			break
 		}
 		err = commit(lnk)
-		h.ok, h.failed = err == nil, err != nil
+		h.ok, h.failed, h.err = err == nil, err != nil, err
 	default:
 		h.kind = "read"
-		r, err := w.mem.OpenRead(linking.LinkContext{Ctx: ctx}, lnk)
+		r, err := w.openR(linking.LinkContext{Ctx: ctx}, lnk)
 		if err != nil {
+			w.absent(h, err)
 			break
 		}
 		var got []byte
 		buf := make([]byte, chunk)
+		failed := false
 		for {
 			n, e := r.Read(buf)
 			got = append(got, buf[:n]...)
 			if e != nil {
+				failed = e != io.EOF
 				break
 			}
 			w.s.Yield("read.piece")
+		}
+		if c, ok := r.(io.Closer); ok {
+			c.Close()
+		}
+		if failed {
+			h.kind = "readerr" // a read error is an error, not data; it says nothing about presence
+			break
 		}
 		h.ok = true
 		w.checkBytes(h, got, content)
